@@ -517,3 +517,6 @@ T("C10", "twin-reconstructor-subclass-own-constructor", F, 'x', 'x', edits=_reco
     '    def __init__(self):\n'
     '        super().__init__(c2profile_parser)\n',
     '        return ProfileReconstructor().reconstruct(self.tree, postproc)\n'))
+
+# ------------------------------------------------------------------------------------------------ R12 (round 8, C10o)
+M("C10", "keyword-literal-case-insensitive", "c2profile.lark", '"set" "CN" string ";"', '"set" "CN"i string ";"', "C10.R12")
